@@ -61,6 +61,16 @@ def check(ctx, cfg):
     r4(ctx, cfg)
     r5(ctx, cfg)
     r6(ctx, cfg)
+    r7(ctx, cfg)
+
+
+def r7(ctx, cfg):
+    """"handed with sender ... intact" for messages emitted by a contract: the sender the module sees is the emitting
+    contract - the callee whose response is being processed is the contract handed to process_response (C05.R4's dispatch
+    obligations), which hands it to execute_submsg, which hands it to the router (C03.R3's) - under C17's id"""
+    from rules import C03, C05
+    C05.r4_dispatch(ctx, cfg, "C17.R7")
+    C03.r3(ctx, cfg, R="C17.R7")
 
 
 def _self_field(o, name):
